@@ -77,7 +77,9 @@ def strategy(draw):
         cols = [i for i, c in enumerate(spec["columns"]) if not c.get("regex") and c["name"] in names]
         if r < 2 and cols:
             entry = "column"
-            case["entry_col"] = draw(st.sampled_from(cols))
+            hot = [i for i in cols if spec["columns"][i]["name"] in case.get("touched", [])]
+            # prefer a column a parsing option works on: that is where the working copy is written to
+            case["entry_col"] = draw(st.sampled_from(hot if hot and draw(st.integers(0, 9)) < 7 else cols))
         elif r < 4 and spec.get("index"):
             entry = "index"
     case["entry"] = entry
